@@ -23,6 +23,8 @@ type opCase struct {
 	Cfg  rig.Config       `json:"config"`
 	Op   gen.Op           `json:"op"`
 	UIdx int              `json:"universe_index"`
+	// Before: operations the same gateway answers first; the judged answer must not depend on them
+	Before []gen.Op `json:"before,omitempty"`
 }
 
 func (c01) ID() string            { return "C01" }
@@ -143,7 +145,25 @@ func (p c01) Gen(c *run.Ctx, idx int) (json.RawMessage, error) {
 		return nil, nil
 	}
 	cfg := c01Configs[r.Intn(len(c01Configs))]
-	return mustJSON(opCase{U: cu.spec, Cfg: cfg, Op: *op, UIdx: uidx}), nil
+	cs := opCase{U: cu.spec, Cfg: cfg, Op: *op, UIdx: uidx}
+	if idx%20 == 11 {
+		if e, j := genAbstractHistoryProbe(r, cu); e != nil {
+			cs.Op, cs.Before = *j, []gen.Op{*e}
+			return mustJSON(cs), nil
+		}
+	}
+	if idx%3 == 2 {
+		// one or two other operations on the same universe, answered by the same gateway before the judged one
+		rb := rng(c.Seed, "c01/before", idx)
+		bp := gen.DefaultOpProfile()
+		bp.Pool, bp.IDStyle, bp.PInline, bp.PTypename = cu.spec.Data.Pool, cu.spec.Data.IDStyle, 0.2, 0.2
+		for k := 0; k < 1+rb.Intn(2); k++ {
+			if o := genValidOp(rb, cu.mono, bp); o != nil {
+				cs.Before = append(cs.Before, *o)
+			}
+		}
+	}
+	return mustJSON(cs), nil
 }
 
 func cfgTags(cfg rig.Config) []string {
@@ -303,6 +323,18 @@ func execOpCase(prop string, sp *opCase) run.Result {
 				break
 			}
 		}
+	}
+	for i := range sp.Before {
+		// history on the same gateway: nothing an earlier request did (to the shared schema, routing table, plans) may show
+		if w := r.Query(&sp.Before[i]); w.Panic != nil {
+			res.Verdict, res.Symptom, res.Message = run.Violated, "handler-panic(earlier request): "+errTemplate(fmt.Sprint(w.Panic)), fmt.Sprint(w.Panic)+"\n"+w.Stack
+			return res
+		}
+		res.Counters["earlier_requests_on_the_same_gateway"]++
+	}
+	if len(sp.Before) > 0 {
+		tags["history"] = true
+		mark = r.Log.Len()
 	}
 	for round := 0; round < rounds; round++ {
 		hr := r.Query(&sp.Op)
